@@ -1229,7 +1229,7 @@ def gen_trace(seed):
             again = json.loads(json.dumps(q))
             if "rs" in again:
                 again["rs"] = dict(again["rs"], seed=rq.getrandbits(32))
-            what = pick_weighted(rq, [("tol", 4.0), ("limits", 1.0), ("nothing", 1.0)])
+            what = pick_weighted(rq, [("tol", 4.0), ("limits", 1.0), ("nothing", 1.0), ("move", 0.8), ("home", 0.6)])
             between = []
             if what == "tol":
                 between = [{"op": "tol", "pos": float("%.3g" % (coarse["pos"] * 10 ** -rq.uniform(2, 5))),
@@ -1237,6 +1237,12 @@ def gen_trace(seed):
             elif what == "limits":
                 between = [{"op": "limits", "mins": [float(x) * 0.93 for x in mins], "maxs": [float(x) * 0.93 for x in maxs],
                             "how": rq.choice(["setter", "assign", "inplace"])}]
+            elif what == "move":
+                # (an absolute goal pose stays the same question for the caller; the arm it is asked of has moved)
+                between = [{"op": "move", "base": [round(rq.uniform(-0.4, 0.4), 3) for _ in range(3)] + [round(rq.uniform(-0.3, 0.3), 3) for _ in range(3)],
+                            "stationary": False, "rs": {"kinds": ["uniform"], "seed": rq.getrandbits(32)}}]
+            elif what == "home":
+                between = [{"op": "home", "rel": [round(rq.uniform(-0.2, 0.2), 3) for _ in range(3)] + [round(rq.uniform(-0.3, 0.3), 3) for _ in range(3)]}]
             steps[i_:i_ + 1] = [coarse, q] + between + [again]
     # A violation ends a history -- also one that the known-findings file then tolerates.  Goals half a turn from the start hit
     # the half-turn finding in every second call, so they go last: nothing generated after them is lost (review 2).
